@@ -272,7 +272,8 @@ pub fn adaptive_scenario(r: &mut Report, seed: u64, variant: usize) {
     let mut rng = Rng::new(seed);
     let w = World::with_cfg(seed, NetCfg::default(), TraceLevel::Full);
     let case = json!({"class":"adaptive","seed":seed.to_string(),"variant":variant});
-    let n_servers = 3 + rng.usize(5);
+    // one responder (a single address vote per lookup) up to seven
+    let n_servers = 1 + rng.usize(7);
     let net = build_net(&w, n_servers, 0, IpPlan::Public, false, &mut rng);
     let ip = Ipv4Addr::new(70, 1, 2, 3);
     let mut boots = vec![net.boot];
